@@ -210,6 +210,105 @@ func (c *check) runUnits(ctx *engine.Ctx, p *propInfo) {
 		if !emFailed && !broken["em"] {
 			c.sharedRule(ctx, p, tmpl)
 		}
+		if tmpl == p.templates[0] && !emFailed && len(broken) == 0 {
+			c.mixedUnits(ctx, p, tmpl)
+		}
+	}
+}
+
+// font-relative units of the mixed documents: unit -> (declared length, factor of the font size
+// in px; rem: of the root's 10px). Ahem: ex = 0.8em, ch = 1em.
+var mixedUnitList = []struct {
+	unit, length string
+	factor       float64
+}{{"em", "2em", 2}, {"ex", "5ex", 4}, {"ch", "3ch", 3}, {"rem", "2rem", 2}}
+
+// mixedUnits: two users of the document-wide caches (the ex/ch ratio cache is shared by all
+// the styles of a document and keyed by font). Every ordered pair of font-relative units on two
+// sibling elements, on a parent and its child, and on two properties of one element, all with
+// the same font, read in both orders; each value is compared with its own pixel reference.
+func (c *check) mixedUnits(ctx *engine.Ctx, p *propInfo, tmpl string) {
+	if p.name == "font-size" {
+		return // the font sizes of the skeleton are the references
+	}
+	partner := &propInfo{name: "width", key: pr.PWidth.Key()}
+	if p.name == "width" {
+		partner = &propInfo{name: "height", key: pr.PHeight.Key()}
+	}
+	type arrangement struct {
+		name   string
+		f1, f2 float64 // font sizes of the two users
+	}
+	arrs := []arrangement{{"siblings", 30, 40}, {"parent-child", 30, 40}, {"same-element", 30, 30}}
+	doc := func(arr string, v1, v2 string) string {
+		d1, d2 := p.name+":"+strings.ReplaceAll(tmpl, "{L}", v1), p.name+":"+strings.ReplaceAll(tmpl, "{L}", v2)
+		head := `<html style="font-family:ahem;font-size:10px"><body style="font-size:20px">`
+		switch arr {
+		case "siblings":
+			return head + `<div style="font-size:30px;` + d1 + `">a</div><section style="font-size:40px;` + d2 + `">b</section></body></html>`
+		case "parent-child":
+			return head + `<div style="font-size:30px;` + d1 + `"><p style="font-size:40px;` + d2 + `">c</p></div></body></html>`
+		}
+		return head + `<div style="font-size:30px;` + d1 + `;` + partner.name + `:` + v2 + `">a</div></body></html>`
+	}
+	read := func(arr, src string, secondFirst bool, feats []string, desc string) (v1, v2 pr.CssProperty, ok bool) {
+		ok = c.guard(ctx, desc, feats, func() {
+			ss := c.newStyles(src, "pango", false)
+			s1 := ss.sf.Get(ss.nodes["div"], "")
+			s2, p2 := s1, partner
+			switch arr {
+			case "siblings":
+				s2, p2 = ss.sf.Get(ss.nodes["section"], ""), p
+			case "parent-child":
+				s2, p2 = ss.sf.Get(ss.nodes["p"], ""), p
+			}
+			if secondFirst {
+				v2 = s2.Get(p2.key)
+				v1 = s1.Get(p.key)
+			} else {
+				v1 = s1.Get(p.key)
+				v2 = s2.Get(p2.key)
+			}
+		})
+		ctx.Trans(1)
+		return
+	}
+	px := func(factor, f float64, unit string) string {
+		if unit == "rem" {
+			f = 10
+		}
+		return fmt.Sprintf("%gpx", factor*f)
+	}
+	for _, arr := range arrs {
+		for _, u1 := range mixedUnitList {
+			for _, u2 := range mixedUnitList {
+				base := []string{"pos:mixed-units", "prop:" + p.name, "fam:" + family(p.name), "arr:" + arr.name, "units:" + u1.unit + "+" + u2.unit, "tmpl:" + sanitize(tmpl)}
+				refSrc := doc(arr.name, px(u1.factor, arr.f1, u1.unit), px(u2.factor, arr.f2, u2.unit))
+				w1, w2, ok := read(arr.name, refSrc, false, append(base[:len(base):len(base)], "order:reference"), "mixed-units reference prop="+p.name+" doc="+refSrc)
+				if !ok {
+					ctx.Case(false, "panic")
+					continue
+				}
+				src := doc(arr.name, u1.length, u2.length)
+				for _, secondFirst := range []bool{false, true} {
+					order := map[bool]string{false: "first-then-second", true: "second-then-first"}[secondFirst]
+					feats := append(base[:len(base):len(base)], "order:"+order)
+					cs := "mixed-units prop=" + p.name + " arr=" + arr.name + " order=" + order + " doc=" + src
+					g1, g2, ok := read(arr.name, src, secondFirst, feats, cs)
+					if !ok {
+						ctx.Case(true, "panic")
+						continue
+					}
+					ctx.Count("reach:R6-mixed-units", 1)
+					ctx.Case(true, canon(p.name, false, g1)+canon(p.name, false, g2))
+					if !approx(g1, w1) || !approx(g2, w2) {
+						c.fail(ctx, engine.Failure{Clause: "R6-mixed-units", Features: feats, Case: cs,
+							Detail: fmt.Sprintf("first user (%s, font-size %gpx) has %s, expected %s; second user (%s, font-size %gpx) has %s, expected %s",
+								u1.length, arr.f1, canon(p.name, false, g1), canon(p.name, false, w1), u2.length, arr.f2, canon(p.name, false, g2), canon(p.name, false, w2))})
+					}
+				}
+			}
+		}
 	}
 }
 
